@@ -3,7 +3,7 @@
     a node reaches the output unchanged ([covered]). *)
 From Coq Require Import NArith ZArith List Bool Arith Lia.
 From PLV Require Import Base.PyStr Tok.Tokenizer Parse.Nodes Parse.Parser L2T.L2T.
-From PLV Require Import Proofs.L2TUnfold Proofs.L2TFilters.
+From PLV Require Import Proofs.L2TUnfold Proofs.L2TFilters Proofs.L2TFiltersFmt.
 Import ListNotations.
 
 (** * Contiguous substring *)
@@ -371,6 +371,50 @@ Section Exact.
     apply Hin. now left.
   Qed.
 
+  (** macro / specials rendered through a template with [%(n)s] keys, all of them
+      within the available slots, one of them the key of argument [i] *)
+  Definition tmpl_key_ok (ts : option tspec) (n i : nat) : bool :=
+    match ts with
+    | Some t => match t_repl t with
+                | RStr tmpl => tmpl_active tmpl
+                               && match parse_fmt (S (length tmpl)) tmpl with
+                                  | Some items => dict_ok items n && existsb (is_key (key_of_nat (S i))) items
+                                  | None => false end
+                | _ => false end
+    | None => false
+    end.
+  Definition macro_tmpl_key (nm : str) (nargs i : nat) : bool :=
+    tmpl_key_ok (assoc (lt_macros lt) nm) (Nat.max nargs (nslots_of (get_macro_spec cx nm))) i.
+  Definition specials_tmpl_key (ch : str) (nargs i : nat) : bool :=
+    tmpl_key_ok (assoc (lt_specials lt) ch) (Nat.max nargs (nslots_of (get_specials_spec cx ch))) i.
+
+  Lemma generic_tmpl_key_args : forall ts dd nn a k i sl st,
+    tmpl_key_ok ts (Nat.max (length (argn_of a)) k) i = true -> i < length (argn_of a) ->
+    infix (nth i (fst (atexts_g nt sl st a)) []) (fst (generic_g src lt o nt sl st ts dd nn a k None)).
+  Proof.
+    intros ts dd nn a k i sl st Hok Hi. unfold tmpl_key_ok in Hok.
+    destruct ts as [t0|]; [|discriminate]. unfold generic_g.
+    destruct (t_repl t0) as [|tmpl|c]; try discriminate.
+    apply andb_prop in Hok. destruct Hok as [Hact Hok].
+    destruct (parse_fmt (S (length tmpl)) tmpl) as [items|] eqn:Ep; [|discriminate].
+    apply andb_prop in Hok. destruct Hok as [Hd Hk].
+    destruct tmpl as [|c0 tl]; [discriminate|].
+    unfold str_repl_g. unfold tmpl_active in Hact. rewrite Hact, Ep.
+    rewrite (dict_ok_nopos items _ Hd).
+    assert (Hl : length (fst (atexts_g nt sl st a)) = length (argn_of a)).
+    { destruct a as [[sp l]|]; [apply args_texts_length | reflexivity]. }
+    destruct (atexts_g nt sl st a) as [ts0 st1]. cbn [fst] in *.
+    set (ts1 := ts0 ++ repeat [] (k - length ts0)).
+    assert (Hl1 : length ts1 = Nat.max (length (argn_of a)) k).
+    { unfold ts1. rewrite app_length, repeat_length. lia. }
+    rewrite <- Hl1 in Hd. destruct (fmt_dict_total items ts1 Hd) as (r & Hr & Hin).
+    change (combine (map (fun i0 => key_of_nat (S i0)) (seq 0 (length ts1))) ts1)
+      with (combine (fmt_keys 0 (length ts1)) ts1).
+    rewrite Hr. cbn [fst].
+    replace (nth i ts0 []) with (nth i ts1 []) by (unfold ts1; apply app_nth1; lia).
+    apply Hin; [lia|]. now apply existsb_is_key.
+  Qed.
+
   Section Covered.
     Variable thru_math : bool.       (* also follow bodies of formulas in the modes that render them *)
     Variable leaf : node -> Prop.
@@ -390,6 +434,10 @@ Section Exact.
         In (Some x) l -> covered x -> covered (NMacro p e m nm ps (Some (sp, l)))
     | cov_specials_tmpl : forall p e m ch sp l x, specials_tmpl_pos ch (length l) = true ->
         In (Some x) l -> covered x -> covered (NSpecials p e m ch (Some (sp, l)))
+    | cov_macro_key : forall p e m nm ps sp l i x, macro_tmpl_key nm (length l) i = true ->
+        nth_error l i = Some (Some x) -> covered x -> covered (NMacro p e m nm ps (Some (sp, l)))
+    | cov_specials_key : forall p e m ch sp l i x, specials_tmpl_key ch (length l) i = true ->
+        nth_error l i = Some (Some x) -> covered x -> covered (NSpecials p e m ch (Some (sp, l)))
     | cov_env_tmpl : forall p e m nm a bp be l x, env_tmpl_pos nm = true ->
         In (Some x) l -> covered x -> covered (NEnv p e m nm a (Some (NList bp be l)))
     | cov_math : forall p e m d dl dr bp be l x, thru_math = true -> math_blind o = false ->
@@ -440,6 +488,18 @@ Section Exact.
         destruct (args_texts_g nt sl st1 r) as [ts st2]. cbn [fst] in *. exists t'. split; [now right | exact Hw].
     Qed.
 
+    Lemma args_nth : forall l i x, nth_error l i = Some (Some x) ->
+      (forall sl st, infix w (fst (arg_text_g nt sl st (Some x)))) ->
+      forall sl st, infix w (nth i (fst (args_texts_g nt sl st l)) []).
+    Proof.
+      induction l as [|y r IH]; intros i x Hn Hx sl st; [destruct i; discriminate|].
+      rewrite args_texts_cons. destruct i as [|i]; cbn [nth_error] in Hn.
+      - injection Hn as ->. specialize (Hx sl st). destruct (arg_text_g nt sl st (Some x)) as [t st1].
+        destruct (args_texts_g nt sl st1 r) as [ts st2]. exact Hx.
+      - destruct (arg_text_g nt sl st y) as [t st1]. specialize (IH i x Hn Hx sl st1).
+        destruct (args_texts_g nt sl st1 r) as [ts st2]. exact IH.
+    Qed.
+
     Lemma generic_concat_infix : forall ts dd,
       match ts with None => negb dd | Some t => no_repl (t_repl t) && negb (t_discard t) end = true ->
       forall sl st nn a k eb,
@@ -478,6 +538,8 @@ Section Exact.
                      | p e m ch sp l x Ht Hin Hc [IH1 IH2]
                      | p e m nm ps sp l x Ht Hin Hc [IH1 IH2]
                      | p e m ch sp l x Ht Hin Hc [IH1 IH2]
+                     | p e m nm ps sp l i x Ht Hin Hc [IH1 IH2]
+                     | p e m ch sp l i x Ht Hin Hc [IH1 IH2]
                      | p e m nm a bp be l x Ht Hin Hc [IH1 IH2]
                      | p e m d dl dr bp be l x Htm Hnb Hin Hc [IH1 IH2]
                      | p e m nm a bp be l x Htm Hnb Hq Hin Hc [IH1 IH2]].
@@ -533,6 +595,22 @@ Section Exact.
                       (Some (sp, l)) (nslots_of (get_specials_spec cx ch)) sl st Ht Hlen) as (r & Hr & Hall).
           rewrite Hr. destruct (args_in l x Hin IH2 sl st) as (t & Hint & Hwt).
           eapply infix_trans; [exact Hwt|]. apply Hall. exact Hint. }
+        split; [exact Hn|]. intros sl st. exact (Hn sl st).
+      - (* macro, keyed template *)
+        assert (Hn : forall sl st, infix w (fst (nt sl st (NMacro p e m nm ps (Some (sp, l)))))).
+        { intros sl st. unfold nt. rewrite node_text_step. cbn [node_step]. fold nt.
+          assert (Hlen : i < length l) by (apply nth_error_Some; congruence).
+          eapply infix_trans; [|apply generic_tmpl_key_args; [exact Ht | exact Hlen]].
+          cbn [atexts_g]. now apply (args_nth l i x). }
+        split; [exact Hn|]. intros sl st. exact (Hn sl st).
+      - (* specials, keyed template *)
+        assert (Hn : forall sl st, infix w (fst (nt sl st (NSpecials p e m ch (Some (sp, l)))))).
+        { intros sl st. unfold nt. rewrite node_text_step. cbn [node_step]. fold nt.
+          unfold specials_tmpl_key in Ht.
+          destruct (assoc (lt_specials lt) ch) as [t0|] eqn:Ea; [|discriminate].
+          assert (Hlen : i < length l) by (apply nth_error_Some; congruence).
+          eapply infix_trans; [|apply generic_tmpl_key_args; [exact Ht | exact Hlen]].
+          cbn [atexts_g]. now apply (args_nth l i x). }
         split; [exact Hn|]. intros sl st. exact (Hn sl st).
       - (* environment, positional template *)
         assert (Hn : forall sl st, infix w (fst (nt sl st (NEnv p e m nm a (Some (NList bp be l)))))).
